@@ -80,6 +80,17 @@ func main() {
 			np += len(m)
 		}
 		fmt.Printf("errdisp.json: %d functions, %d (function, callee) pairs\n", len(ed), np)
+		lc := props.LockCover(prog)
+		lb, _ := json.MarshalIndent(lc, "", " ")
+		if werr := os.WriteFile(filepath.Join(*verif, "lockcover.json"), lb, 0o644); werr != nil {
+			fmt.Println(werr)
+			os.Exit(2)
+		}
+		nl := 0
+		for _, m := range lc.Cover {
+			nl += len(m)
+		}
+		fmt.Printf("lockcover.json: %d mutable fields, %d functions, %d (function, field) pairs\n", len(lc.Mutable), len(lc.Cover), nl)
 		return
 	}
 	prog, err := prepare(*repo, *verif)
